@@ -737,6 +737,11 @@ func newDeliverHandler(mode string, srcClientID string, msg *gmqtt.Message, now 
 		}
 		d.matched = true
 		if sub.ShareName != "" {
+			// A session whose expiry interval has passed has left its share groups, whether the periodic sweep
+			// has removed it yet or not: what is sent to it is lost while the other members wait.
+			if deadline, offline := srv.offlineClients[clientID]; offline && now.After(deadline) {
+				return true
+			}
 			fullTopic := sub.GetFullTopicName()
 			d.sl[fullTopic] = append(d.sl[fullTopic], struct {
 				clientID string
